@@ -34,6 +34,8 @@ static int n_create, n_free;      /* callback counters */
 static int fail_next_create;      /* next create_unit returns ABT_UNIT_NULL */
 static int create_failed;
 static ABT_thread mig_watch = ABT_THREAD_NULL; /* see I_MIGRATE */
+static int mig_at = -1;  /* slices the migrating ULT had started when its unit in
+                            the target pool was created */
 static const int *mig_watch_started;
 static char logbuf[400];
 static int loglen;
@@ -441,7 +443,7 @@ static const cfg_t cfgs[] = {
       "translates) | primary translates parked unit", 1, M_CONC, 0, I_EXT_CREATE,
       1, POL_LIFO, 1 },
     { "I: X creates in parking pool, moves it into served pool, frees | ES1 runs | "
-      "primary translates", 1, M_CONC, 0, I_EXT_MOVE, 1, POL_FIFO, 0 },
+      "primary creates and translates", 1, M_CONC, 0, I_EXT_MOVE, 1, POL_FIFO, 0 },
     { "I: primary requests migration of a yielding ULT between two served user "
       "pools | ES1 runs | X translates", 1, M_CONC, 0, I_MIGRATE, 1, POL_FIFO, 0 },
     { "I: mixed kinds, served legacy-def pool, pop index chosen (E)", 1, M_CONC, 0,
@@ -458,7 +460,8 @@ static const cfg_t cfgs[] = {
       M_CONC, 0, I_CREATE_FREE, 1, POL_LIFO, 1 },
     { "I: X creates unnamed units in served pool (new API), distinct buckets", 0,
       M_CONC, 0, I_EXT_CREATE, 0, POL_FIFO, 0 },
-    { "I: X moves parking->served legacy-def pool, frees | primary translates", 0,
+    { "I: X moves parking->served legacy-def pool, frees | primary creates and "
+      "translates", 0,
       M_CONC, 0, I_EXT_MOVE, 1, POL_LIFO, 1 },
     { "I: migration between served pools (legacy-def source), LIFO", 0, M_CONC, 0,
       I_MIGRATE, 1, POL_LIFO, 1 },
@@ -808,8 +811,7 @@ static ABT_thread PARKED;
 static int parked_pool = 2;  /* UP[2]: never served */
 static int obs_rounds;
 static char obs_live[4]; /* live units of the bucket seen at each observation */
-static int mig_at = -1;  /* slices the migrating ULT had started when its unit in
-                            the target pool was created */
+
 static ABT_pool SERVED, SERVED2;
 static int served_idx, served2_idx;
 
@@ -900,6 +902,7 @@ static void scenario_conc(void)
             break;
         case I_EXT_MOVE:
             x1 = abtmc_thread_create(ext_move, NULL);
+            new_work_unit(SERVED, 3, 0); /* a second concurrent mapper */
             observer(NULL);
             break;
         case I_MIGRATE: {
